@@ -1,7 +1,7 @@
 from __future__ import annotations
 import zlib
 from ..rfc7516.models import JWEZipModel
-from ..errors import ExceededSizeError
+from ..errors import ExceededSizeError, DecodeError
 
 GZIP_HEAD = bytes([120, 156])
 MAX_SIZE = 250 * 1024
@@ -24,7 +24,10 @@ class DeflateZipModel(JWEZipModel):
             decompressor = zlib.decompressobj()
         else:
             decompressor = zlib.decompressobj(-zlib.MAX_WBITS)
-        value = decompressor.decompress(s, MAX_SIZE)
+        try:
+            value = decompressor.decompress(s, MAX_SIZE)
+        except zlib.error:
+            raise DecodeError("Invalid compressed data")
         # the limit was exceeded if input is left unread, or if zlib still holds output
         # (a match that straddles the limit leaves no unconsumed input behind)
         if decompressor.unconsumed_tail or decompressor.decompress(b"", 1):
